@@ -196,8 +196,7 @@ Theorem fhdr_is_spec h opts :
   fhdr_marshal h = Ok (spec_fhdr h opts).
 Proof.
   intros Ho Hl L4 B4. unfold fhdr_marshal, spec_fhdr. rewrite Ho. cbn [bind].
-  assert (En : N.of_nat (length opts) mod 256 = N.of_nat (length opts)) by (apply N.mod_small; lia).
-  rewrite En. replace (15 <? N.of_nat (length opts)) with false by lia.
+  replace (15 <? N.of_nat (length opts)) with false by lia.
   set (c := mkFCtrl (adr (fc h)) (adrackreq (fc h)) (ack (fc h)) (fpending (fc h)) (classb (fc h)) (N.of_nat (length opts))).
   assert (Hc : foptslen c < 16) by (unfold c; cbn [foptslen]; lia).
   rewrite (fctrl_is_spec c Hc). cbn [bind]. f_equal.
